@@ -26,9 +26,11 @@ class Scenarios:
         self.items = []
         self.packages = {}
 
-    def add(self, sid, files, main="d/main.conf", opts=(), meta=None):
-        """files: {relative path: [line, ...]}; sid is 0-based."""
-        self.items.append({"sid": sid, "files": files, "main": main, "opts": list(opts), "meta": meta or {}})
+    def add(self, sid, files, main="d/main.conf", opts=(), meta=None, twin=None):
+        """files: {relative path: [line, ...]}; sid is 0-based; twin: index of a
+        scenario that must have the same outcome."""
+        self.items.append({"sid": sid, "files": files, "main": main, "opts": list(opts), "meta": meta or {},
+                           "twin": twin})
         return len(self.items) - 1
 
     # -- JSON for TLC -------------------------------------------------------
@@ -51,9 +53,13 @@ class Scenarios:
                         continue
                     target = posixpath.normpath(posixpath.join(posixpath.dirname(name), arg))
                     resolve["%d/%s|%s" % (i, name, enc(arg))] = ("%d/%s" % (i, target)) if target in it["files"] else ""
-            for (name, arg), target in it["meta"].get("resolve", {}).items():
-                resolve["%d/%s|%s" % (i, name, enc(arg))] = ("%d/%s" % (i, target)) if target else ""
+            for (dname, arg), target in it["meta"].get("resolve", {}).items():
+                # keyed by the includer's directory: every file of that directory resolves alike
+                for name in it["files"]:
+                    if posixpath.dirname(name) == dname:
+                        resolve["%d/%s|%s" % (i, name, enc(arg))] = ("%d/%s" % (i, target)) if target else ""
             scn.append({"sid": it["sid"] + 1, "main": "%d/%s" % (i, it["main"]),
+                        "twin": 0 if it["twin"] is None else it["twin"] + 1,
                         "opts": [{"path": [enc(p) for p in o["path"]], "val": enc(o["val"])} for o in it["opts"]]})
         return {"scn": scn, "res": res, "resolve": resolve}
 
@@ -88,7 +94,8 @@ class Scenarios:
 
     OVERRIDES = {"KeyConvOf": "MCKeyConvOf", "ConvOf": "MCConvOf", "SecConvOf": "MCSecConvOf",
                  "ResLines": "MCResLines", "Resolve": "MCResolve", "Package": "MCPackage",
-                 "Schemas": "MCSchemas", "ScnSchema": "MCScnSchema", "ScnMain": "MCScnMain", "ScnOpts": "MCScnOpts"}
+                 "Schemas": "MCSchemas", "ScnSchema": "MCScnSchema", "ScnMain": "MCScnMain", "ScnOpts": "MCScnOpts",
+                 "ScnTwin": "MCScnTwin"}
 
     def run_spec(self, chk, invariants=(), properties=(), workers=6, timeout=3000, extra_values=()):
         """Run TLC over all scenarios; returns the emitted record per scenario."""
@@ -99,7 +106,8 @@ class Scenarios:
             with open(path, "w") as f:
                 json.dump(self.to_json(), f)
             cfg = flow.cfg_text(constants={"NScn": len(self.items)}, overrides=self.OVERRIDES,
-                                invariants=["STypeOK", "OnlyConfigErrors", "FramesAreOpenResources", "LifoClose"]
+                                invariants=["STypeOK", "OnlyConfigErrors", "FramesAreOpenResources", "LifoClose",
+                                            "TwinSameOutcome"]
                                 + list(invariants) + ["Emit"],
                                 properties=["DefinesWriteOnce", "FailureIsFinal2"] + list(properties))
 
